@@ -18,7 +18,7 @@ from Cryptodome.PublicKey import ECC, RSA
 from Cryptodome.Signature import DSS, pkcs1_15, eddsa
 
 import ndn.encoding as enc
-import ndn.utils as ndn_utils
+from mc.ndnenv import owned_env
 from ndn.app_support import security_v2 as sv2
 from ndn.security import Sha256WithEcdsaSigner, Sha256WithRsaSigner, Ed25519Signer, HmacSha256Signer
 
@@ -185,13 +185,16 @@ def run_case(case):
     signer, loc = issuer_signer(case['iss'])
     tag = case['f']
     version_ms = 1_700_000_123_456
+    if case['f'] != 'derive':
+        # one instant for every way of reading the clock (version component and validity period)
+        version_ms = int(dt.datetime.fromisoformat(case['now']).timestamp() * 1000)
 
     class T:
         @staticmethod
         def time():
             return version_ms / 1000 + 0.0004
-    old_t = ndn_utils.time
-    ndn_utils.time = T
+    env = owned_env(clock=T, seed=16)
+    env.__enter__()
     try:
         with owned_random(('c16', case['it'], case.get('pad'), case['subj'])):
             if case.get('reuse'):
@@ -225,7 +228,7 @@ def run_case(case):
                     except Exception as e:  # noqa
                         return [(f"C16|{case['f']}|raises:{type(e).__name__}@{tb_where(e)}", f'{e!r}; case {case}')], None
     finally:
-        ndn_utils.time = old_t
+        env.__exit__(None, None, None)
     viol = check_cert(wire, kn, issuer_comp, pub, case['iss'], loc, nb, na, version_ms, tag)
     if [bytes(c) for c in name] != ns.read_data(bytes(wire), cert=True)['name'] if not any('malformed' in v[0] for v in viol) else False:
         viol.append((f'C16|{tag}|returned-name', 'the name returned with the certificate differs from the name on the wire'))
